@@ -14,7 +14,7 @@ func init() { register("C14", propC14) }
 func v(n string) aff { return affVar(n) }
 
 func propC14(c *Ctx) {
-	c.Explanation = "Decides, for ALL 32-bit operands, that each primitive of pkg/seqnum computes the serial-number-arithmetic definition in the property: every function body is abstractly evaluated (loop-free path enumeration, affine terms mod 2^32, signed tests rewritten to unsigned intervals, callees substituted) into a predicate normal form which is compared exactly - over the finite partition induced by the interval end points - with the definition written in the same normal form; a mismatch is reported with the interval of distances on which code and definition differ. Additionally a type-resolved lint shows that the TCP/stack/header packages never order seqnum.Value operands with raw < <= > >= (so all ordering goes through the decided primitives) and that the out-of-order heap orders by LessThan. S2 also flags a seqnum.Value converted to any plain integer type and then ordered. (S4) sequence-typed sender/receiver state is initialised from iss/irs. (S5) every conversion into the 32-bit sequence space, and every other narrowing conversion of packages tcp and seqnum, is in the reviewed table (closed world). NOT decided: the consequence clause (that every TCP property holds at wrap-adjacent initial sequence numbers) beyond this necessary condition; Overlap is decided against its definition-by-composition, which coincides with 'the windows share a sequence number' only for window sizes < 2^31 (pen-and-paper lemma, see DESIGN.md)."
+	c.Explanation = "Decides, for ALL 32-bit operands, that each primitive of pkg/seqnum computes the serial-number-arithmetic definition in the property: every function body is abstractly evaluated (loop-free path enumeration, affine terms mod 2^32, signed tests rewritten to unsigned intervals, callees substituted) into a predicate normal form which is compared exactly - over the finite partition induced by the interval end points - with the definition written in the same normal form; a mismatch is reported with the interval of distances on which code and definition differ. Additionally a type-resolved lint shows that the TCP/stack/header packages never order seqnum.Value operands with raw < <= > >= (so all ordering goes through the decided primitives) and that the out-of-order heap orders by LessThan. S2 also flags a seqnum.Value converted to any plain integer type and then ordered. (S4) sequence-typed sender/receiver state is initialised from iss/irs. (S5) every conversion into the 32-bit sequence space, and every other narrowing conversion of packages tcp and seqnum, is in the reviewed table (closed world). S2 also reports a seqnum.Value compared for (in)equality with a constant - a sentinel at a fixed point of the sequence space - unless the operand is a difference (a distance). NOT decided: the consequence clause (that every TCP property holds at wrap-adjacent initial sequence numbers) beyond this necessary condition; Overlap is decided against its definition-by-composition, which coincides with 'the windows share a sequence number' only for window sizes < 2^31 (pen-and-paper lemma, see DESIGN.md)."
 	c.Assumptions = []string{
 		"Go semantics of uint32/int32 arithmetic and conversions as modelled by the affine32 evaluator",
 		"Overlap's definition-by-composition equals window intersection for sizes < 2^31 (TCP windows are <= 2^30)",
@@ -201,6 +201,23 @@ func isSeqValue(t types.Type) bool {
 	return ok && n.Obj().Pkg() != nil && strings.HasSuffix(n.Obj().Pkg().Path(), "pkg/seqnum") && n.Obj().Name() == "Value"
 }
 
+// isSeqDistance: the value is a difference of sequence numbers (possibly
+// shifted or masked), i.e. a distance and not a point of the sequence space.
+func isSeqDistance(v ssa.Value) bool {
+	switch x := v.(type) {
+	case *ssa.BinOp:
+		switch x.Op {
+		case token.SUB:
+			return true
+		case token.SHR, token.SHL, token.AND, token.QUO:
+			return isSeqDistance(x.X)
+		}
+	case *ssa.Convert:
+		return isSeqDistance(x.X)
+	}
+	return false
+}
+
 func wider32(t types.Type) bool {
 	b, ok := t.Underlying().(*types.Basic)
 	if !ok {
@@ -239,6 +256,14 @@ func seqLint(c *Ctx, S2 string, scope []string) int {
 					switch x.Op {
 					case token.LSS, token.LEQ, token.GTR, token.GEQ:
 						c.Bad(S2, FuncName(fn)+"/raw-order:"+Term(x), c.P.Pos(x.Pos()), "raw "+x.Op.String()+" on seqnum.Value: wrong across the 2^32 wrap; use LessThan/InRange/InWindow")
+					case token.EQL, token.NEQ:
+						_, cx := x.X.(*ssa.Const)
+						_, cy := x.Y.(*ssa.Const)
+						if (cx && isSeqValue(x.Y.Type()) && !isSeqDistance(x.Y)) || (cy && isSeqValue(x.X.Type()) && !isSeqDistance(x.X)) {
+							c.Bad(S2, FuncName(fn)+"/fixed-point:"+Term(x), c.P.Pos(x.Pos()), "a seqnum.Value is compared with a constant: one fixed point of the sequence space is treated specially (a sentinel), although every value, 0 included, is an ordinary sequence number for some initial sequence number")
+						} else {
+							c.Ok(S2, FuncName(fn)+"/binop:"+x.Op.String()+":"+Term(x), c.P.Pos(x.Pos()), "wrap-safe operator on seqnum.Value")
+						}
 					default:
 						c.Ok(S2, FuncName(fn)+"/binop:"+x.Op.String()+":"+Term(x), c.P.Pos(x.Pos()), "wrap-safe operator on seqnum.Value")
 					}
